@@ -34,6 +34,12 @@ type c11Input struct {
 	Query  string `json:"query"`  // template id
 	Range  bool   `json:"range"`
 	Bound  int    `json:"bound"` // MAPITER deviation bound
+	// Inner: grouping clause on the range aggregation itself (avg_over_time ... by/without), "" = none.
+	Inner string `json:"inner,omitempty"`
+}
+
+var c11Inner = map[string]*refmodel.Grouping{
+	"by(a)": g(false, "a"), "by(a,b)": g(false, "a", "b"), "without(a)": g(true, "a"), "without(v,c)": g(true, "v", "c"),
 }
 
 func g(without bool, labels ...string) *refmodel.Grouping {
@@ -129,6 +135,9 @@ func c11Build(in c11Input) ([]mockq.Rec, refmodel.Expr, bool) {
 	if in.Unwrap {
 		x = &refmodel.RangeAgg{Op: "sum_over_time", Unwrap: "v", RangeNS: 10 * sec}
 	}
+	if in.Inner != "" {
+		x = &refmodel.RangeAgg{Op: "max_over_time", Unwrap: "v", RangeNS: 10 * sec, Grouping: c11Inner[in.Inner]}
+	}
 	for _, t := range c11Tmpl {
 		if t.name == in.Query {
 			return data, t.build(x), t.instantOnly
@@ -203,6 +212,12 @@ func c11Run(r *vkit.Run) {
 						continue
 					}
 					c11Check(r, c11Input{Series: sub, Unwrap: unwrap, Query: t.name, Range: rg, Bound: bound}, nil)
+					if unwrap && !rg {
+						// the range aggregation itself carries a grouping clause the outer ones must respect
+						for _, inner := range []string{"by(a)", "by(a,b)", "without(a)", "without(v,c)"} {
+							c11Check(r, c11Input{Series: sub, Unwrap: true, Query: t.name, Bound: bound, Inner: inner}, nil)
+						}
+					}
 				}
 			}
 			if len(sub) >= 2 {
